@@ -121,6 +121,9 @@ type c02World struct {
 	keys     []hotstuff.PrivateKey
 	badPop   map[int]string // logical member -> kind of bad proof of possession (BLS)
 	rogueX   *big.Int
+	warm     *Authority // warm-cache mode: long-lived cache-ON Authority of verifier 0 whose cache holds single signatures
+	warmDesc string
+	offSeen  string     // verdict of the cache-less Authority on the current case (compared with the warm one)
 	selfVi   int // verifier whose Authority was handed out last
 	sigds    map[string]uint64 // signature bytes -> name (QuorumCert.Equals granularity)
 	ids      []uint64 // actual replica id of logical replica k = ids[k-1]; ids[n] is the outsider
@@ -436,6 +439,9 @@ func (w *c02World) auth(vi int, cache, agg bool) *Authority {
 	}
 	ver := w.vers[vi]
 	w.selfVi = vi
+	if w.warm != nil && vi == 0 && cache && !agg {
+		return w.warm
+	}
 	return NewAuthority(ver.cfgs[key], w.chain, ver.bases[key])
 }
 
